@@ -7,7 +7,7 @@ CHECK = {
              '97th) x 8 sizes, (iii) the keys with the largest fractional part x every float value of the scale factor '
              '(quick: every 257th), using the smallest m that converts to that float, (iv) boundary and random 64-bit pairs, (v) EVERY 32-bit key x 2 (thorough 8) table sizes and 2.7*10^8 (thorough 2*10^9) random 64-bit keys of random magnitude, so that the sweep does not depend on the single-precision structure of the current implementation; '
              'B: a matrix of {insert,find,erase} x {idle, pending with the bad function current, pending with it as the new '
-             'function} x bad value {m, m+1, SIZE_MAX} x {bad for every key, the call\'s key, another element\'s key (relocation '
+             'function} x bad value {m, m+1, SIZE_MAX, 2^32 + an in-range value, 2^63 + an in-range value} x {bad for every key, the call\'s key, another element\'s key (relocation '
              'path)} x grow/shrink x 4 table sizes, each cell requiring arrival in the library\'s abort() iff the function '
              'returned an out-of-range value during the call; C: random histories on tables using the built-in functions where '
              'any abort is a violation. Distinct = input slices and matrix cells in which the bad value arose.'),
